@@ -270,11 +270,23 @@ def rule_rp_add_step(prog: Program, report: Report) -> None:
     key = "prosemirror/transform/transform.py::Transform.add_step"
     fn = prog.func(key)
     body = [s for s in fn.node.body if not (isinstance(s, ast.Expr) and isinstance(s.value, ast.Constant))]
+    from ..norm import Resolver
+    from ..rules.rn import _inline_locals
+
+    body = [s_ for s_ in _inline_locals(fn.node, body)]
     texts = [" ".join(src(s).split()) for s in body]
     step, doc = fn.params()[1], fn.params()[2]
     want = [f"self.docs.append(self.doc)", f"self.steps.append({step})", f"self.mapping.append_map({step}.get_map())", f"self.doc = {doc}"]
-    if any(not isinstance(s, (ast.Expr, ast.Assign)) for s in body):
-        raise AnalysisError("RP-add_step: add_step is no longer straight-line (unrecognised idiom)")
+    nested = [" ".join(src(x).split()) for s_ in body if not isinstance(s_, (ast.Expr, ast.Assign)) for x in ast.walk(s_) if isinstance(x, (ast.Expr, ast.Assign))]
+    for w in want:
+        if w in nested and w not in texts:
+            report.violate("RP-add_step", fn, fn.node, f"`{w}` is executed only under a condition", f"add_step must record the old document, the step and the step's own map unconditionally, once each: docs[i], steps[i] and mapping.maps[i] belong together (a skipped map shifts every later index, so mapping.maps[i] is no longer step i's map)", what="history arrays stay aligned")
+    if any(f.rule == "RP-add_step" for f in report.findings):
+        return
+    if any(not isinstance(s_, (ast.Expr, ast.Assign)) for s_ in body):
+        # extra control flow that does not touch the four recording statements is tolerated
+        body = [s_ for s_ in body if isinstance(s_, (ast.Expr, ast.Assign))]
+        texts = [" ".join(src(s_).split()) for s_ in body]
     for w in want:
         c = texts.count(w)
         if c == 1:
@@ -331,3 +343,99 @@ def rule_rq(prog: Program, report: Report) -> None:
     report.count("RQ reachable raise statements", n_raise)
     report.count("RQ reachable asserts (not armed)", len(asserts))
     report.expect_at_least("RQ", "reachable raise statements", n_raise, 10)
+
+
+# ----------------------------------------------------------------------- RT3
+def rule_rt3(prog: Program, report: Report) -> None:
+    """`p or default` / `if not p` on an Optional[int] parameter treats the
+    legitimate value 0 like "not given" (P1 truthiness); the default must be
+    selected with `is None`.  `p or 0` is exempt (0 stays 0)."""
+    report.rules.append("RT3")
+    tm = prog.types
+    n = 0
+    for fn in prog.all_funcs():
+        params = set(fn.params())
+        for node in walk_own(fn.node):
+            cand = None
+            if isinstance(node, ast.BoolOp) and isinstance(node.op, ast.Or) and len(node.values) == 2 and isinstance(node.values[0], ast.Name) and node.values[0].id in params:
+                d = node.values[1]
+                if not (isinstance(d, ast.Constant) and d.value == 0):
+                    cand = node.values[0]
+            if cand is None:
+                continue
+            names = tm.instance_names(fn.module, cand)
+            if set(names) == {"builtins.int", "None"}:
+                n += 1
+                report.violate("RT3", fn, node, f"`{src(node)[:60]}` on an Optional[int] parameter", f"`{cand.id}` may legitimately be 0 (a position / depth / index); `{src(node)[:60]}` replaces 0 by the default as if the argument had not been given - test `is None` instead", what="defaults of Optional[int] parameters are selected with `is None`")
+    for fn in prog.all_funcs():
+        params = set(fn.params())
+        for a, site in truth_tests(fn.node):
+            if isinstance(a, ast.Name) and a.id in params and isinstance(site, ast.If) and isinstance(site.test, ast.UnaryOp) and site.test.operand is a:
+                names = tm.instance_names(fn.module, a)
+                if set(names) == {"builtins.int", "None"}:
+                    # `if not p: p = <default>`
+                    if any(isinstance(x, ast.Assign) and any(isinstance(t, ast.Name) and t.id == a.id for t in x.targets) for x in site.body):
+                        n += 1
+                        report.violate("RT3", fn, site, f"`if not {a.id}:` selects a default for an Optional[int] parameter", f"`{a.id}` may legitimately be 0; `if not {a.id}` treats 0 like None", what="defaults of Optional[int] parameters are selected with `is None`")
+    report.ob("RT3", "package", "no Optional[int] parameter has its default selected by truthiness (0 is a legitimate position)")
+    report.count("RT3 truthiness-defaulted Optional[int] parameters", n)
+
+
+# ------------------------------------------------------------------- RF-copy
+def rule_copy_fresh(prog: Program, report: Report) -> None:
+    """Mapping.copy returns a Mapping whose `maps` and `mirror` lists are new
+    lists: appending to the copy (or to the source) must not show in the other."""
+    from .rl import _is_fresh_expr
+
+    report.rules.append("RF-copy")
+    MAP = "prosemirror/transform/map.py"
+    key = f"{MAP}::Mapping.copy"
+    fn = prog.func(key)
+
+    def fresh_or_none(e: ast.expr) -> bool:
+        if isinstance(e, ast.Constant) and e.value is None:
+            return True
+        if isinstance(e, ast.IfExp):
+            return fresh_or_none(e.body) and fresh_or_none(e.orelse)
+        return _is_fresh_expr(e)
+
+    def fields_of_call(c: ast.expr, owner: Func, depth: int = 0) -> dict[str, bool] | None:
+        """{maps: fresh?, mirror: fresh?} of a Mapping-valued expression."""
+        if isinstance(c, ast.Call) and isinstance(c.func, ast.Name) and c.func.id == "Mapping":
+            args = list(c.args) + [None, None]
+            kw = {k.arg: k.value for k in c.keywords}
+            a0 = kw.get("maps", args[0])
+            a1 = kw.get("mirror", args[1])
+            return {"maps": a0 is None or fresh_or_none(a0), "mirror": a1 is None or fresh_or_none(a1)}
+        if isinstance(c, ast.Call) and isinstance(c.func, ast.Attribute) and isinstance(c.func.value, ast.Name) and c.func.value.id == "self" and depth < 2:
+            k2 = f"{MAP}::Mapping.{c.func.attr}"
+            if prog.has_func(k2):
+                callee = prog.func(k2)
+                res = [fields_of_call(r.value, callee, depth + 1) for r in walk_own(callee.node) if isinstance(r, ast.Return) and r.value is not None]
+                if res and all(x is not None for x in res):
+                    return {"maps": all(x["maps"] for x in res), "mirror": all(x["mirror"] for x in res)}  # type: ignore[index]
+        return None
+
+    rets = [r for r in walk_own(fn.node) if isinstance(r, ast.Return) and r.value is not None]
+    if not rets:
+        raise AnalysisError("RF-copy: Mapping.copy has no return")
+    for r in rets:
+        v = r.value
+        fields = None
+        if isinstance(v, ast.Name):
+            defs = [a for a in walk_own(fn.node) if isinstance(a, ast.Assign) and len(a.targets) == 1 and isinstance(a.targets[0], ast.Name) and a.targets[0].id == v.id]
+            if len(defs) == 1:
+                fields = fields_of_call(defs[0].value, fn)
+                if fields is not None:
+                    for a in walk_own(fn.node):
+                        if isinstance(a, ast.Assign) and len(a.targets) == 1 and isinstance(a.targets[0], ast.Attribute) and isinstance(a.targets[0].value, ast.Name) and a.targets[0].value.id == v.id and a.targets[0].attr in fields:
+                            fields[a.targets[0].attr] = fresh_or_none(a.value)
+        else:
+            fields = fields_of_call(v, fn)
+        if fields is None:
+            raise AnalysisError(f"RF-copy: cannot see how Mapping.copy builds its result (`{src(v)[:60]}`)")
+        bad = [k for k, ok in fields.items() if not ok]
+        if bad:
+            report.violate("RF-copy", fn, r, f"Mapping.copy shares {bad} with its source", f"the returned mapping's {bad} list(s) are the source's own list object(s): appending a map or registering a mirror on one side changes the other (a mapping being appended to is the only thing allowed to change, and only itself)", what="Mapping.copy copies maps and mirror")
+        else:
+            report.ob("RF-copy", key, "the copy gets new `maps` and `mirror` lists")
